@@ -245,6 +245,7 @@ QUERIES = [None, '', 'y=1']
 # case only, have an empty key, are exact duplicates, or are many
 MULTI_QUERIES = ['k=1&k=2', 'tag=x&page=2&tag=y', 'b=2&a=1', 'k&k', 'k=&k', 'k&k=', 'id=1&id=2&id=3',
                  'z=1&y=2&z=3&y=4', 'k=', 'a=1&a=1', 'K=1&k=2', '=v', 'k=v&=w&k=u&=x',
+                 'next=/x/../y?z:1@w&k', "?k=?&a/b=(c,d)*!$'",
                  '&'.join('p%d=%d' % (i % 7, i) for i in range(40))]
 # query texts that are not '&'-joined non-empty pairs: ';' separators, empty pairs, separators only
 NONCANON_QUERIES = ['a=1;b=2', '&a=1', 'a=1&&b=2', 'a=1&', '&', ';', 'a=1;a=2', '&;&', 'k;k=;k']
@@ -330,7 +331,8 @@ def in_model_domain(c):
         # empty before '='), keys and values of characters that are neither quoted nor unquoted
         for pair in re.split('[&;]', c['query']):
             k, eq, v = pair.partition('=')
-            if not re.match(r'^[A-Za-z0-9._~-]*$', k) or not re.match(r'^[A-Za-z0-9._~-]*$', v):
+            # (boltons' _QUERY_SAFE: unreserved, the sub-delims except & = + ; and : @ / ?)
+            if not re.match(r"^[A-Za-z0-9._~!$'()*,:@/?-]*$", k) or not re.match(r"^[A-Za-z0-9._~!$'()*,:@/?-]*$", v):
                 return False
     if c['frag'] is not None and not re.match(r'^[A-Za-z0-9._~/?:@-]*$', c['frag']):
         return False
@@ -382,7 +384,8 @@ class C07(Property):
     ASSUMPTIONS = [
         'components are drawn from characters whose parse/unquote/quote/IDNA handling is the identity (no %, no '
         'delimiter inside a component, ASCII LDH hosts, non-default non-zero ports, queries of key / key= / '
-        'key=value pairs separated by & or ;): quoting and parsing are property C06',
+        'key=value pairs separated by & or ;, keys and values over unreserved characters and ! $ \' ( ) * , : @ / ?): '
+        'quoting and parsing are property C06',
         'a query text that is not a plain &-joined list of non-empty pairs (; separators, empty pairs) is compared '
         'with the RFC target as a parameter list (pairs in order, empty pairs dropped), because a URL object stores '
         'parameters, not the query text; every other query is compared verbatim',
@@ -714,7 +717,7 @@ class C07(Property):
             return rng.choice(NONCANON_QUERIES)
         # random pairs over few keys: repetitions, valueless and empty-valued keys, any order
         n = rng.choice([1, 2, 2, 3, 3, 4, 6])
-        return '&'.join(rng.choice(['k', 'j', 'K', 'a.b']) + rng.choice(['', '=', '=1', '=2', '=v-w'])
+        return '&'.join(rng.choice(['k', 'j', 'K', 'a.b', 'p/q', '?']) + rng.choice(['', '=', '=1', '=2', '=v-w', '=/x?y:z@'])
                         for _ in range(n))
 
     def random_base(self, rng):
